@@ -882,6 +882,12 @@ func (c *Conn) maybeResetTimer() {
 			}
 		}
 	}
+	// Retired connection IDs are removed from the routing table once their grace period is over
+	// (see RemoveRetiredConnIDs in the run loop). This doesn't involve sending a packet,
+	// so the run loop needs to wake up for it no matter if (and how) sending is blocked.
+	if t := c.connIDGenerator.NextRetireTime(); !t.IsZero() && t.Before(deadline) {
+		deadline = t
+	}
 	// If the connection is hard-blocked, we can't even send acknowledgments,
 	// nor can we send PTO probe packets.
 	if c.blocked == blockModeHardBlocked {
